@@ -12,89 +12,139 @@ open Regress Regress.IR Regress.Parse Regress.ESG
 
 /-! ## The pre-scan -/
 
-theorem isIdStart_eq : Parse.isIdStart 0x3D = false := by decide +kernel
-theorem isIdStart_bang : Parse.isIdStart 0x21 = false := by decide +kernel
-
-/-- After `(?` the fragment never has a group name. -/
-theorem tryConsumeName_frag {rest2 : List Nat} (h : parenOk (0x3F :: rest2) = true) :
-    ∃ rest3, tryConsumeName rest2 = .ok (none, rest3) ∧ (rest3 = rest2 ∨ rest2 = 0x3C :: rest3) := by
-  rcases rest2 with _ | ⟨y, r⟩
-  · exact ⟨[], rfl, .inl rfl⟩
-  · by_cases hy : y = 0x3C
-    · subst hy
-      rcases r with _ | ⟨z, r'⟩
-      · simp [parenOk] at h
-      · simp only [parenOk, Bool.or_eq_true, beq_iff_eq] at h
-        refine ⟨z :: r', ?_, .inr rfl⟩
-        rcases h with rfl | rfl
-        · simp [tryConsumeName, Parse.nameChar, Parse.isChar, isIdStart_eq]
-        · simp [tryConsumeName, Parse.nameChar, Parse.isChar, isIdStart_bang]
-    · refine ⟨y :: r, ?_, .inl rfl⟩
-      unfold tryConsumeName
-      split
-      · rename_i heq; cases heq; exact absurd rfl hy
-      · rfl
-
 theorem capOpens_nil : capOpens [] = 0 := capGo_nil false
 
 theorem capOpens_bs_end : capOpens [0x5C] = 0 := by
   unfold capOpens
   rw [capGo] <;> simp [capGo_nil]
 
+theorem lexNames_nil : lexNames [] = [] := namesGo_nil false
+
+theorem lexNames_bs_end : lexNames [0x5C] = [] := by
+  unfold lexNames
+  rw [namesGo] <;> simp [namesGo_nil]
+
 /-- The pre-scan's `skipBracket` is the scanners' in-class mode. -/
-theorem skipBracket_scan (e k : Bool) (rest : List Nat) :
+theorem skipBracket_scan (F : Feat) (rest : List Nat) :
     capGo true rest = capGo false (skipBracket rest) ∧
-    (fragGo e k true rest = true → fragGo e k false (skipBracket rest) = true) := by
+    namesGo true rest = namesGo false (skipBracket rest) ∧
+    (fragGo F true rest = true → fragGo F false (skipBracket rest) = true) := by
   fun_induction skipBracket rest with
-  | case1 => exact ⟨by rw [capGo_nil, capGo_nil], fun _ => by rw [fragGo]⟩
+  | case1 => exact ⟨by rw [capGo_nil, capGo_nil], by rw [namesGo_nil, namesGo_nil], fun _ => by rw [fragGo]⟩
   | case2 c hc =>
     have : c = 0x5C := by simpa using hc
     subst this
-    refine ⟨?_, fun _ => by rw [fragGo]⟩
-    rw [capGo_nil, capGo] <;> simp [capGo_nil]
+    refine ⟨?_, ?_, fun _ => by rw [fragGo]⟩
+    · rw [capGo_nil, capGo] <;> simp [capGo_nil]
+    · rw [namesGo_nil, namesGo] <;> simp [namesGo_nil]
   | case3 c hc x r ih =>
     have : c = 0x5C := by simpa using hc
     subst this
-    refine ⟨by rw [capGo_esc]; exact ih.1, fun h => ?_⟩
+    refine ⟨by rw [capGo_esc]; exact ih.1, by rw [namesGo_esc]; exact ih.2.1, fun h => ?_⟩
     rw [fragGo_esc_in, Bool.and_eq_true] at h
-    exact ih.2 h.2
+    exact ih.2.2 h.2
   | case4 c rest h1 h2 =>
     have hc : c = 0x5D := by simpa using h2
     subst hc
-    exact ⟨capGo_close rest, fun h => by rwa [fragGo_close] at h⟩
+    exact ⟨capGo_close rest, namesGo_close rest, fun h => by rwa [fragGo_close] at h⟩
   | case5 c rest h1 h2 ih =>
     have hc1 : c ≠ 0x5C := by simpa using h1
     have hc2 : c ≠ 0x5D := by simpa using h2
-    exact ⟨by rw [capGo_in rest hc1 hc2]; exact ih.1, fun h => ih.2 (by rwa [fragGo_in e k rest hc1 hc2] at h)⟩
+    exact ⟨by rw [capGo_in rest hc1 hc2]; exact ih.1, by rw [namesGo_in rest hc1 hc2]; exact ih.2.1,
+      fun h => ih.2.2 (by rwa [fragGo_in F rest hc1 hc2] at h)⟩
 
-/-- On the fragment the pre-scan finds no name and counts `capOpens` (saturating at
-`MAX_CAPTURE_GROUPS`). -/
-theorem scanLoop_frag (e k : Bool) (fl : Flags) (hkv : k = true → fl.unicodeSets = false) :
-    ∀ (fuel : Nat) (inp : List Nat) (sc : Scan),
-    fragCore e k inp = true → inp.length < fuel → sc.locs = [] → sc.gmax ≤ Gen.MAX_CAPTURE_GROUPS →
-    ∃ sc', scanLoop fl fuel inp sc = .ok sc' ∧ sc'.locs = [] ∧ sc'.named = sc.named ∧
+/-- When `try_consume_named_capture_group_name` finds no name it restores the input to just after
+the `<`, if there was one. -/
+theorem tryConsumeName_none {r r3 : List Nat} (h : tryConsumeName r = .ok (none, r3)) :
+    r3 = r ∨ r = 0x3C :: r3 := by
+  unfold tryConsumeName at h
+  split at h
+  · rename_i orig
+    right
+    split at h
+    · cases h; rfl
+    · rename_i c rest hc
+      split at h
+      · -- the loop restores `orig`
+        have : ∀ (fuel : Nat) (inp acc : List Nat) (r3 : List Nat),
+            nameLoop fuel inp acc orig = .ok (none, r3) → r3 = orig := by
+          intro fuel
+          induction fuel with
+          | zero => intro inp acc r3 h; simp [nameLoop, panicAt] at h
+          | succ fuel ih =>
+            intro inp acc r3 h
+            rw [nameLoop.eq_def] at h
+            simp only at h
+            split at h
+            · cases h; rfl
+            · split at h
+              · cases h
+              · split at h
+                · cases h; rfl
+                · split at h
+                  · exact ih _ _ _ h
+                  · cases h; rfl
+        rw [this _ _ _ _ h]
+      · cases h; rfl
+  · cases h; exact .inl rfl
+
+theorem mapPush_new {β} (m : List (List Nat × List β)) (k : List Nat) (v : β) (h : k ∉ m.map (·.1)) :
+    mapPush m k v = m ++ [(k, [v])] := by
+  induction m with
+  | nil => rfl
+  | cons e m ih =>
+    obtain ⟨k', vs⟩ := e
+    simp only [List.map_cons, List.mem_cons, not_or] at h
+    unfold mapPush
+    have : (k' == k) = false := by simp; exact fun e => h.1 e.symm
+    simp only [this, Bool.false_eq_true, if_false, List.cons_append]
+    rw [ih h.2]
+
+/-- What the pre-scan has collected after a prefix whose names are `seen`: one entry per name, in
+order, each with one location; `gmax` within the limit. -/
+structure ScanInv (sc : Scan) (seen : List (List Nat)) : Prop where
+  lk : sc.locs.map (·.1) = seen
+  l1 : ∀ e ∈ sc.locs, ∃ p, e.2 = [p]
+  nk : sc.named.map (·.1) = seen
+  nok : NamedOK sc.named
+  gm : sc.gmax ≤ Gen.MAX_CAPTURE_GROUPS
+
+/-- On the fragment (with pairwise distinct group names) the pre-scan collects `lexNames` and counts
+`capOpens` (saturating at `MAX_CAPTURE_GROUPS`). -/
+theorem scanLoop_frag (F : Feat) (fl : Flags) (hkv : F.k = true → fl.unicodeSets = false) :
+    ∀ (fuel : Nat) (inp : List Nat) (sc : Scan) (seen : List (List Nat)),
+    fragCore F inp = true → (F.nm = true → AllChar inp) → inp.length < fuel → ScanInv sc seen →
+    (seen ++ lexNames inp).Nodup →
+    ∃ sc', scanLoop fl fuel inp sc = .ok sc' ∧ ScanInv sc' (seen ++ lexNames inp) ∧
       sc'.gmax = min (sc.gmax + capOpens inp) Gen.MAX_CAPTURE_GROUPS := by
   intro fuel
   induction fuel with
-  | zero => intro inp sc _ hf; omega
+  | zero => intro inp sc seen _ _ hf; omega
   | succ fuel ih =>
-    intro inp sc hfr hf hl hgm
+    intro inp sc seen hfr hch hf hsi hnd
+    have hgm := hsi.gm
     unfold scanLoop
     rcases inp with _ | ⟨c, rest⟩
-    · exact ⟨sc, rfl, hl, rfl, by rw [capOpens_nil]; omega⟩
+    · exact ⟨sc, rfl, by rw [lexNames_nil, List.append_nil]; exact hsi, by rw [capOpens_nil]; omega⟩
     · simp only [List.length_cons] at hf
+      have hch' : F.nm = true → AllChar rest := fun h => (hch h).tail
       by_cases hc1 : c = 0x5C
       · -- an escape: the next character is skipped
         subst hc1
         simp only [beq_self_eq_true, if_true]
         rcases rest with _ | ⟨x, r⟩
-        · rw [capOpens_bs_end]
-          exact ih [] sc rfl (by simp; omega) hl hgm
+        · rw [lexNames_bs_end] at hnd ⊢
+          rw [capOpens_bs_end]
+          have := ih [] sc seen rfl (fun _ => by intro c hc; cases hc) (by simp; omega) hsi
+            (by rw [lexNames_nil]; exact hnd)
+          rw [capOpens_nil, lexNames_nil] at this
+          exact this
         · rw [fragCore_esc] at hfr
           simp only [Bool.and_eq_true] at hfr
           simp only [List.length_cons] at hf
+          rw [lexNames_esc] at hnd ⊢
           rw [capOpens_esc]
-          exact ih r sc hfr.2 (by omega) hl hgm
+          exact ih r sc seen hfr.2 (fun h => (hch' h).tail) (by omega) hsi hnd
       have e1 : (c == 0x5C) = false := by simp [hc1]
       by_cases hc2 : c = 0x5B
       · -- a class: skipped up to the closing bracket
@@ -104,12 +154,24 @@ theorem scanLoop_frag (e k : Bool) (fl : Flags) (hkv : k = true → fl.unicodeSe
         rw [fragGo_open, Bool.and_eq_true] at hfr
         rw [hkv hfr.1]
         simp only [Bool.false_eq_true, if_false]
-        obtain ⟨hs1, hs2⟩ := skipBracket_scan e k rest
+        obtain ⟨hs1, hs2, hs3⟩ := skipBracket_scan F rest
         have hlen := skipBracket_length rest
         have hcap : capOpens (0x5B :: rest) = capOpens (skipBracket rest) := by
           unfold capOpens; rw [capGo_open]; exact hs1
+        have hnam : lexNames (0x5B :: rest) = lexNames (skipBracket rest) := by
+          unfold lexNames; rw [namesGo_open]; exact hs2
+        rw [hnam] at hnd ⊢
         rw [hcap]
-        exact ih (skipBracket rest) sc (hs2 hfr.2) (by omega) hl hgm
+        have hsuf : ∀ l : List Nat, skipBracket l <:+ l := by
+          intro l
+          fun_induction skipBracket l with
+          | case1 => exact List.suffix_refl _
+          | case2 => exact List.nil_suffix
+          | case3 c hc x r ih => exact (ih.trans (List.suffix_cons _ _)).trans (List.suffix_cons _ _)
+          | case4 c rest => exact List.suffix_cons _ _
+          | case5 c rest _ _ ih => exact ih.trans (List.suffix_cons _ _)
+        exact ih (skipBracket rest) sc seen (hs3 hfr.2)
+          (fun h c hc => hch' h c ((hsuf rest).subset hc)) (by omega) hsi hnd
       have hpo := fragCore_head hc1 hc2 hfr
       have hfr' := fragCore_tail hc1 hc2 hfr
       have e2 : (c == 0x5B) = false := by simp [hc2]
@@ -120,16 +182,110 @@ theorem scanLoop_frag (e k : Bool) (fl : Flags) (hkv : k = true → fl.unicodeSe
         simp only [beq_self_eq_true, if_true]
         by_cases hq : ∃ rest2, rest = 0x3F :: rest2
         · obtain ⟨rest2, rfl⟩ := hq
-          obtain ⟨rest3, h3, hs3⟩ := tryConsumeName_frag hpo
-          simp only [h3]
           simp only [List.length_cons] at hf
-          have hfr2 : fragCore e k rest2 = true := fragCore_tail (by decide) (by decide) hfr'
+          have hfr2 : fragCore F rest2 = true := fragCore_tail (by decide) (by decide) hfr'
+          rw [lexNames_q] at hnd ⊢
           rw [capOpens_q]
-          rcases hs3 with rfl | rfl
-          · exact ih rest3 _ hfr2 (by omega) hl hgm
-          · rw [capOpens_plain _ (by decide) (by decide) (by decide)]
-            exact ih rest3 _ (fragCore_tail (by decide) (by decide) hfr2) (by simp only [List.length_cons] at hf; omega) hl hgm
+          obtain ⟨ro, r3, htc, hlen3⟩ := tryConsumeName_ok rest2
+          cases ro with
+          | none =>
+            -- no group name
+            have hna : namedAhead rest2 = none := by unfold namedAhead; rw [htc]
+            rw [hna] at hnd ⊢
+            simp only [Option.isSome_none, Bool.false_eq_true, if_false, Nat.zero_add, Option.toList_none,
+              List.nil_append] at hnd ⊢
+            simp only [htc]
+            rcases tryConsumeName_none htc with rfl | rfl
+            · exact ih r3 _ seen hfr2 (fun h => (hch' h).tail) (by omega)
+                ⟨hsi.lk, hsi.l1, hsi.nk, hsi.nok, hsi.gm⟩ hnd
+            · rw [lexNames_plain _ (by decide) (by decide) (fun h => by cases h)] at hnd ⊢
+              rw [capOpens_plain _ (by decide) (by decide) (by decide)]
+              exact ih r3 _ seen (fragCore_tail (by decide) (by decide) hfr2) (fun h => (hch' h).tail.tail)
+                (by simp only [List.length_cons] at hf; omega) ⟨hsi.lk, hsi.l1, hsi.nk, hsi.nok, hsi.gm⟩ hnd
+          | some nm =>
+            -- a named group
+            have hna : namedAhead rest2 = some nm := by unfold namedAhead; rw [htc]
+            rw [hna] at hnd ⊢
+            simp only [Option.isSome_some, if_true, Option.toList_some] at hnd ⊢
+            simp only [htc]
+            have hlt : ∃ r0, rest2 = 0x3C :: r0 := by
+              rcases rest2 with _ | ⟨y, r9⟩
+              · simp [tryConsumeName] at htc
+              · by_cases hy : y = 0x3C
+                · exact ⟨r9, by rw [hy]⟩
+                · have : tryConsumeName (y :: r9) = .ok (none, y :: r9) := by
+                    unfold tryConsumeName
+                    split
+                    · rename_i heq; cases heq; exact absurd rfl hy
+                    · rfl
+                  rw [this] at htc; cases htc
+            obtain ⟨r0, rfl⟩ := hlt
+            have hnmF : F.nm = true := by
+              rcases r0 with _ | ⟨z, r9⟩
+              · simp [tryConsumeName, Parse.nameChar] at htc
+              · simp only [parenOk, Bool.or_eq_true, beq_iff_eq] at hpo
+                rcases hpo with (h | h) | h
+                · subst h; simp [tryConsumeName, Parse.nameChar, Parse.isChar, isIdStart_eq] at htc
+                · subst h; simp [tryConsumeName, Parse.nameChar, Parse.isChar, isIdStart_bang] at htc
+                · exact h
+            have hch0 : AllChar r0 := (hch' hnmF).tail.tail
+            have hgn : groupName tabs r0 = some (nm, r3) := by
+              have := groupName_sim r0 hch0
+              cases hg : groupName tabs r0 with
+              | none => rw [hg] at this; rw [this] at htc; cases htc
+              | some p =>
+                obtain ⟨nm', r1'⟩ := p
+                rw [hg] at this; rw [this] at htc
+                cases htc; rfl
+            obtain ⟨p, hp, hnp⟩ := name_neutral F hch0 hgn
+            have hlen4 : r3.length < r0.length := groupName_len _ _ _ _ hgn
+            have hch3 : AllChar r3 := by
+              have := (hch' hnmF).tail
+              rw [hp] at this; exact this.append_right
+            have hfr3 : fragCore F r3 = true := by rw [hp] at hfr2; exact hnp.frag' hfr2
+            rw [hp, hnp.names_eq r3] at hnd ⊢
+            rw [hnp.cap_eq r3]
+            have hnew : nm ∉ seen := by
+              have := (List.nodup_append.1 hnd).2.2 nm
+              intro hm
+              exact this hm nm (by simp) rfl
+            have hstep : ∀ g, g ≤ Gen.MAX_CAPTURE_GROUPS →
+                (if g + 1 > Gen.MAX_CAPTURE_GROUPS then Gen.MAX_CAPTURE_GROUPS else g + 1) ≤ Gen.MAX_CAPTURE_GROUPS ∧
+                min ((if g + 1 > Gen.MAX_CAPTURE_GROUPS then Gen.MAX_CAPTURE_GROUPS else g + 1) + capOpens r3)
+                  Gen.MAX_CAPTURE_GROUPS = min (g + (1 + capOpens r3)) Gen.MAX_CAPTURE_GROUPS := by
+              intro g hg; split <;> omega
+            obtain ⟨hs1, hs2⟩ := hstep sc.gmax hgm
+            have hsi' : ScanInv
+                { sc with locs := mapPush sc.locs nm ((List.range (sc.parenDepth + 1)).map fun d =>
+                            ((altGet sc.groupIds d).getD 0, (altGet sc.altIdx d).getD 0)),
+                          named := mapPush sc.named nm sc.gmax,
+                          gmax := if sc.gmax + 1 > Gen.MAX_CAPTURE_GROUPS then Gen.MAX_CAPTURE_GROUPS
+                                  else sc.gmax + 1,
+                          parenDepth := sc.parenDepth + 1,
+                          altIdx := altInsert sc.altIdx (sc.parenDepth + 1) 0,
+                          groupIds := altInsert sc.groupIds (sc.parenDepth + 1) sc.nextGroupId,
+                          nextGroupId := sc.nextGroupId + 1 } (seen ++ [nm]) := by
+              refine ⟨?_, ?_, ?_, ?_, hs1⟩
+              · simp only
+                rw [mapPush_new _ _ _ (by rw [hsi.lk]; exact hnew)]
+                simp [hsi.lk]
+              · simp only
+                rw [mapPush_new _ _ _ (by rw [hsi.lk]; exact hnew)]
+                intro e he
+                rcases List.mem_append.1 he with h | h
+                · exact hsi.l1 e h
+                · simp at h; subst h; exact ⟨_, rfl⟩
+              · simp only
+                rw [mapPush_new _ _ _ (by rw [hsi.nk]; exact hnew)]
+                simp [hsi.nk]
+              · exact mapPush_namedOK hsi.nok _ _
+            obtain ⟨sc', h1, h2, h3⟩ := ih r3 _ (seen ++ [nm]) hfr3
+              (fun _ => hch3) (by simp only [List.length_cons] at hf; omega) hsi'
+              (by simpa using hnd)
+            refine ⟨sc', h1, by simpa using h2, ?_⟩
+            rw [h3]; exact hs2
         · have hne : ∀ r2, rest ≠ 0x3F :: r2 := fun r2 e => hq ⟨r2, e⟩
+          rw [lexNames_plain _ (by decide) (by decide) (fun _ => hne)] at hnd ⊢
           rw [capOpens_cap hne]
           have hstep : ∀ g, g ≤ Gen.MAX_CAPTURE_GROUPS →
               (if g + 1 > Gen.MAX_CAPTURE_GROUPS then Gen.MAX_CAPTURE_GROUPS else g + 1) ≤ Gen.MAX_CAPTURE_GROUPS ∧
@@ -139,46 +295,68 @@ theorem scanLoop_frag (e k : Bool) (fl : Flags) (hkv : k = true → fl.unicodeSe
           obtain ⟨hs1, hs2⟩ := hstep sc.gmax hgm
           rcases rest with _ | ⟨y, r2⟩
           · simp only
-            obtain ⟨sc', h1, h2, h3, h4⟩ := ih []
+            obtain ⟨sc', h1, h2, h3⟩ := ih []
               { sc with gmax := if sc.gmax + 1 > Gen.MAX_CAPTURE_GROUPS then Gen.MAX_CAPTURE_GROUPS
                                 else sc.gmax + 1,
                         parenDepth := sc.parenDepth + 1,
                         altIdx := altInsert sc.altIdx (sc.parenDepth + 1) 0,
                         groupIds := altInsert sc.groupIds (sc.parenDepth + 1) sc.nextGroupId,
-                        nextGroupId := sc.nextGroupId + 1 } hfr' (by simp; omega) hl hs1
-            exact ⟨sc', h1, h2, h3, by rw [h4]; exact hs2⟩
+                        nextGroupId := sc.nextGroupId + 1 } seen hfr' hch' (by simp; omega)
+              ⟨hsi.lk, hsi.l1, hsi.nk, hsi.nok, hs1⟩ hnd
+            exact ⟨sc', h1, h2, by rw [h3]; exact hs2⟩
           · have hy : y ≠ 0x3F := fun e => hne r2 (by rw [e])
             simp only [hy]
-            obtain ⟨sc', h1, h2, h3, h4⟩ := ih (y :: r2)
+            obtain ⟨sc', h1, h2, h3⟩ := ih (y :: r2)
               { sc with gmax := if sc.gmax + 1 > Gen.MAX_CAPTURE_GROUPS then Gen.MAX_CAPTURE_GROUPS
                                 else sc.gmax + 1,
                         parenDepth := sc.parenDepth + 1,
                         altIdx := altInsert sc.altIdx (sc.parenDepth + 1) 0,
                         groupIds := altInsert sc.groupIds (sc.parenDepth + 1) sc.nextGroupId,
-                        nextGroupId := sc.nextGroupId + 1 } hfr' (by omega) hl hs1
-            exact ⟨sc', h1, h2, h3, by rw [h4]; exact hs2⟩
+                        nextGroupId := sc.nextGroupId + 1 } seen hfr' hch' (by omega)
+              ⟨hsi.lk, hsi.l1, hsi.nk, hsi.nok, hs1⟩ hnd
+            exact ⟨sc', h1, h2, by rw [h3]; exact hs2⟩
       · have e3 : (c == 0x28) = false := by simp [hp]
         simp only [e3, Bool.false_eq_true, if_false]
+        rw [lexNames_plain _ hc1 hc2 (fun h => absurd h hp)] at hnd ⊢
         rw [capOpens_plain _ hp hc1 hc2]
         split
         · split
-          · exact ih rest _ hfr' (by omega) hl hgm
-          · exact ih rest sc hfr' (by omega) hl hgm
+          · exact ih rest _ seen hfr' hch' (by omega) ⟨hsi.lk, hsi.l1, hsi.nk, hsi.nok, hsi.gm⟩ hnd
+          · exact ih rest sc seen hfr' hch' (by omega) hsi hnd
         · split
-          · exact ih rest _ hfr' (by omega) hl hgm
-          · exact ih rest sc hfr' (by omega) hl hgm
+          · exact ih rest _ seen hfr' hch' (by omega) ⟨hsi.lk, hsi.l1, hsi.nk, hsi.nok, hsi.gm⟩ hnd
+          · exact ih rest sc seen hfr' hch' (by omega) hsi hnd
 
-/-- On the fragment the pre-scan succeeds and sets `groupCountMax` to the lexical group count. -/
-theorem parseCaptureGroups_frag (e k : Bool) (st : PState) (h : fragCore e k st.input = true)
-    (hkv : k = true → st.flags.unicodeSets = false) (h0 : st.groupCountMax = 0) :
-    parseCaptureGroups st =
-      .ok { st with groupCountMax := min (capOpens st.input) Gen.MAX_CAPTURE_GROUPS } := by
-  obtain ⟨sc', h1, h2, h3, h4⟩ := scanLoop_frag e k st.flags hkv (st.input.length + 1) st.input
-    { named := st.named, gmax := st.groupCountMax } h (by omega) rfl (by rw [h0]; simp)
+theorem anyConflict_singletons {β} (locs : List (β × List (List (Nat × Nat))))
+    (h : ∀ e ∈ locs, ∃ p, e.2 = [p]) : locs.any (fun e => anyConflict e.2) = false := by
+  rw [List.any_eq_false]
+  intro e he
+  obtain ⟨p, hp⟩ := h e he
+  rw [hp]
+  simp [anyConflict]
+
+/-- On the fragment (group names pairwise distinct) the pre-scan succeeds; it sets `groupCountMax` to
+the lexical group count and builds a name table whose keys are the lexical names. -/
+theorem parseCaptureGroups_frag (F : Feat) (st : PState) (h : fragCore F st.input = true)
+    (hch : F.nm = true → AllChar st.input)
+    (hkv : F.k = true → st.flags.unicodeSets = false) (h0 : st.groupCountMax = 0) (hn0 : st.named = [])
+    (hnd : (lexNames st.input).Nodup) :
+    ∃ N, parseCaptureGroups st =
+        .ok { st with groupCountMax := min (capOpens st.input) Gen.MAX_CAPTURE_GROUPS, named := N } ∧
+      N.map (·.1) = lexNames st.input ∧ NamedOK N := by
+  have hsi0 : ScanInv { named := st.named, gmax := st.groupCountMax } [] := by
+    refine ⟨rfl, ?_, ?_, ?_, ?_⟩
+    · intro e he; cases he
+    · simp only [hn0]; rfl
+    · simp only [hn0]; intro e he; cases he
+    · simp only [h0]; exact Nat.zero_le _
+  obtain ⟨sc', h1, h2, h4⟩ := scanLoop_frag F st.flags hkv (st.input.length + 1) st.input
+    { named := st.named, gmax := st.groupCountMax } [] h hch (by omega) hsi0 (by simpa using hnd)
+  refine ⟨sc'.named, ?_, by simpa using h2.nk, h2.nok⟩
   unfold parseCaptureGroups
   rw [h1]
-  simp only [h2, List.any_nil, Bool.false_eq_true, if_false]
-  rw [h3, h4, h0, Nat.zero_add]
+  simp only [anyConflict_singletons _ h2.l1, Bool.false_eq_true, if_false]
+  rw [h4, h0, Nat.zero_add]
 
 /-! ## `try_parse` -/
 
@@ -222,39 +400,44 @@ def effFlags (fl : Flags) : Flags := if fl.unicodeSets then { fl with unicode :=
 
 /-- `parse` answers `Ok` exactly when the descent (from the state the pre-scan leaves) consumes the
 whole pattern. -/
-theorem parse_isOk_iff (e k : Bool) (pat : List Nat) (fl : Flags) (hb : Bnd pat) (hfr : fragCore e k pat = true)
-    (hkv : k = true → fl.unicodeSets = false) :
-    (parse pat fl).isOk = true ↔
-      ∃ nd st1, consumeDisjunction (parseFuel pat)
-        { input := pat, flags := effFlags fl,
-          groupCountMax := min (capOpens pat) Gen.MAX_CAPTURE_GROUPS } = .ok (nd, st1) ∧ st1.input = [] := by
-  have hkv' : k = true → (effFlags fl).unicodeSets = false := fun h => by
+theorem parse_isOk_iff (F : Feat) (pat : List Nat) (fl : Flags) (hb : Bnd pat) (hfr : fragCore F pat = true)
+    (hch : F.nm = true → AllChar pat) (hkv : F.k = true → fl.unicodeSets = false)
+    (hnd : (lexNames pat).Nodup) :
+    ∃ N, N.map (·.1) = lexNames pat ∧ NamedOK N ∧
+      ((parse pat fl).isOk = true ↔
+        ∃ nd st1, consumeDisjunction (parseFuel pat)
+          { input := pat, flags := effFlags fl,
+            groupCountMax := min (capOpens pat) Gen.MAX_CAPTURE_GROUPS, named := N } = .ok (nd, st1) ∧
+          st1.input = []) := by
+  have hkv' : F.k = true → (effFlags fl).unicodeSets = false := fun h => by
     unfold effFlags; rw [hkv h]; exact hkv h
-  have hg := parseCaptureGroups_frag e k { input := pat, flags := effFlags fl } hfr hkv' rfl
+  obtain ⟨N, hg, hN, hNok⟩ := parseCaptureGroups_frag F { input := pat, flags := effFlags fl } hfr hch hkv' rfl rfl hnd
+  refine ⟨N, hN, hNok, ?_⟩
   have hpe : parse pat fl = parseBody
-      { input := pat, flags := effFlags fl, groupCountMax := min (capOpens pat) Gen.MAX_CAPTURE_GROUPS } := by
+      { input := pat, flags := effFlags fl, groupCountMax := min (capOpens pat) Gen.MAX_CAPTURE_GROUPS,
+        named := N } := by
     unfold parse tryParse
     simp only
     unfold effFlags at hg
     rw [hg]
     rfl
   rw [hpe]
-  exact parseBody_isOk _ ⟨by intro e he; simp at he, by simp [Gen.MAX_NESTING_DEPTH],
+  exact parseBody_isOk _ ⟨hNok, by simp [Gen.MAX_NESTING_DEPTH],
     by simp [Gen.MAX_CAPTURE_GROUPS], by simp [Gen.MAX_LOOPS], hb⟩
 
 /-! ## `parsePattern`, and the two joined -/
 
 /-- Outside UnicodeMode the grammar never records a decimal escape. -/
 def Mono0 (c : Cfg) (n : Nat) : Prop :=
-  (∀ s st r st', disj c n s st = .ok (r, st') → st'.maxDec = st.maxDec) ∧
-  (∀ s st r st', alt c n s st = .ok (r, st') → st'.maxDec = st.maxDec) ∧
-  (∀ s st r st', body c n s st = .ok (r, st') → st'.maxDec = st.maxDec) ∧
-  (∀ s st r st', term c n s st = .ok (r, st') → st'.maxDec = st.maxDec) ∧
-  (∀ s st r st', quantified c n s st = .ok (r, st') → st'.maxDec = st.maxDec) ∧
-  (∀ s st r st', atom c n s st = .ok (r, st') → st'.maxDec = st.maxDec)
+  (∀ s st r st', disj c n s st = .ok (r, st') → st'.maxDec = st.maxDec ∧ (c.n = false → st'.refs = st.refs)) ∧
+  (∀ s st r st', alt c n s st = .ok (r, st') → st'.maxDec = st.maxDec ∧ (c.n = false → st'.refs = st.refs)) ∧
+  (∀ s st r st', body c n s st = .ok (r, st') → st'.maxDec = st.maxDec ∧ (c.n = false → st'.refs = st.refs)) ∧
+  (∀ s st r st', term c n s st = .ok (r, st') → st'.maxDec = st.maxDec ∧ (c.n = false → st'.refs = st.refs)) ∧
+  (∀ s st r st', quantified c n s st = .ok (r, st') → st'.maxDec = st.maxDec ∧ (c.n = false → st'.refs = st.refs)) ∧
+  (∀ s st r st', atom c n s st = .ok (r, st') → st'.maxDec = st.maxDec ∧ (c.n = false → st'.refs = st.refs))
 
 theorem atomEscape_mono0 (c : Cfg) (hc : c.u = false) (s : List Nat) (st : ESG.St) (r : List Nat) (st' : ESG.St)
-    (h : atomEscape c s st = .ok (r, st')) : st'.maxDec = st.maxDec := by
+    (h : atomEscape c s st = .ok (r, st')) : st'.maxDec = st.maxDec ∧ (c.n = false → st'.refs = st.refs) := by
   unfold atomEscape namedRef at h
   repeat' split at h
   all_goals grind
@@ -338,7 +521,8 @@ theorem capGo_le_opens : ∀ (n : Nat) (m : Bool) (l : List Nat), l.length ≤ n
                 rw [e1]
                 simp only [List.length_cons] at hl
                 have := ih false r' (by omega)
-                simp [opens]; omega
+                simp only [opens]
+                split <;> simp <;> omega
               · have e1 := capOpens_cap (fun r' e => hq ⟨r', e⟩)
                 unfold capOpens at e1
                 rw [e1]
@@ -351,42 +535,154 @@ theorem capGo_le_opens : ∀ (n : Nat) (m : Bool) (l : List Nat), l.length ≤ n
 
 theorem capOpens_le_opens (l : List Nat) : capOpens l ≤ opens l := capGo_le_opens _ false l (Nat.le_refl _)
 
+theorem mapGet_isSome_iff {β} (m : List (List Nat × β)) (k : List Nat) :
+    (mapGet m k).isSome = true ↔ k ∈ m.map (·.1) := by
+  induction m with
+  | nil => simp [mapGet]
+  | cons e m ih =>
+    obtain ⟨k', v⟩ := e
+    unfold mapGet
+    by_cases hk : k' = k
+    · subst hk; simp
+    · have : (k' == k) = false := by simp [hk]
+      simp only [this, Bool.false_eq_true, if_false, List.map_cons, List.mem_cons]
+      rw [ih]
+      constructor
+      · exact .inr
+      · rintro (h | h)
+        · exact absurd h.symm hk
+        · exact h
+
+/-- Without named groups admitted the fragment has no group name. -/
+theorem namesGo_nil_of_frag (F : Feat) (hnm : F.nm = false) : ∀ (n : Nat) (m : Bool) (l : List Nat),
+    l.length ≤ n → fragGo F m l = true → namesGo m l = [] := by
+  intro n
+  induction n with
+  | zero => intro m l hl _; cases l with | nil => exact namesGo_nil m | cons _ _ => simp at hl
+  | succ n ih =>
+    intro m l hl hf
+    rcases l with _ | ⟨c, r⟩
+    · exact namesGo_nil m
+    · simp only [List.length_cons] at hl
+      by_cases hc : c = 0x5C
+      · subst hc
+        rcases r with _ | ⟨x, r'⟩
+        · cases m <;> (rw [namesGo] <;> simp [namesGo_nil])
+        · rw [namesGo_esc]
+          simp only [List.length_cons] at hl
+          cases m with
+          | true =>
+            rw [fragGo_esc_in, Bool.and_eq_true] at hf
+            exact ih true r' (by omega) hf.2
+          | false =>
+            rw [fragGo_esc_out, Bool.and_eq_true] at hf
+            exact ih false r' (by omega) hf.2
+      · cases m with
+        | true =>
+          by_cases hd : c = 0x5D
+          · subst hd
+            rw [namesGo_close]
+            rw [fragGo_close] at hf
+            exact ih false r (by omega) hf
+          · rw [namesGo_in r hc hd]
+            rw [fragGo_in F r hc hd] at hf
+            exact ih true r (by omega) hf
+        | false =>
+          by_cases hb : c = 0x5B
+          · subst hb
+            rw [namesGo_open]
+            rw [fragGo_open, Bool.and_eq_true] at hf
+            exact ih true r (by omega) hf.2
+          · have hf' : fragCore F (c :: r) = true := hf
+            have htl := fragCore_tail hc hb hf'
+            have hpo := fragCore_head hc hb hf'
+            by_cases hq : c = 0x28 ∧ ∃ r', r = 0x3F :: r'
+            · obtain ⟨rfl, r', rfl⟩ := hq
+              have e1 := lexNames_q r'
+              unfold lexNames at e1
+              rw [e1]
+              have hpo := hpo rfl
+              rw [hnm] at hpo
+              have hna : namedAhead r' = none := by
+                apply namedAhead_none
+                rcases r' with _ | ⟨y, r2⟩
+                · exact .inl (by intro r' h; cases h)
+                · by_cases hy : y = 0x3C
+                  · subst hy
+                    rcases r2 with _ | ⟨z, r3⟩
+                    · simp [parenOk] at hpo
+                    · simp only [parenOk, Bool.or_false, Bool.or_eq_true, beq_iff_eq] at hpo
+                      exact .inr (.inl ⟨z, r3, rfl, hpo⟩)
+                  · exact .inl (by intro r' h; cases h; exact hy rfl)
+              rw [hna]
+              simp only [Option.toList_none, List.nil_append]
+              exact ih false _ (by simp only [List.length_cons] at hl ⊢; omega) htl
+            · have e1 := lexNames_plain r hc hb (fun h r' hr => hq ⟨h, r', hr⟩)
+              unfold lexNames at e1
+              rw [e1]
+              exact ih false r (by omega) htl
+
+theorem lexNames_nil_of_frag (F : Feat) (hnm : F.nm = false) {pat : List Nat} (h : fragCore F pat = true) :
+    lexNames pat = [] := namesGo_nil_of_frag F hnm _ false pat (Nat.le_refl _) h
+
+theorem mapGet_append {β} (m m' : List (List Nat × β)) (k : List Nat) :
+    mapGet (m ++ m') k = match mapGet m k with | some v => some v | none => mapGet m' k := by
+  induction m with
+  | nil => rfl
+  | cons e m ih =>
+    obtain ⟨k', v⟩ := e
+    simp only [List.cons_append]
+    rw [mapGet, mapGet]
+    split
+    · rfl
+    · exact ih
+
 /-- The descent from the state the pre-scan leaves, against `parsePattern`. -/
-theorem frag_core (e k : Bool) (c : Cfg) (pat : List Nat) (fl' : Flags) (hu : c.u = fl'.unicode)
-    (heu : e = true → fl'.unicode = true)
-    (hkk : k = true → e = true ∧ fl'.unicode = true ∧ c.v = false ∧ fl'.unicodeSets = false)
-    (hch : e = true → ∀ c ∈ pat, Parse.isChar c = true)
-    (hfr : fragCore e k pat = true) (hlim : withinLimits pat = true) :
+theorem frag_core (F : Feat) (c : Cfg) (pat : List Nat) (fl' : Flags) (N : List (List Nat × List Nat))
+    (hu : c.u = fl'.unicode)
+    (hmode : (c.u = true ∧ c.n = true) ∨ (c.u = false ∧ c.n = false))
+    (heu : F.e = true → fl'.unicode = true)
+    (hkk : F.k = true → F.e = true ∧ fl'.unicode = true ∧ c.v = false ∧ fl'.unicodeSets = false)
+    (hnn : F.nm = true → F.e = true ∧ c.t = tabs)
+    (hch : F.e = true → ∀ c ∈ pat, Parse.isChar c = true)
+    (hfr : fragCore F pat = true) (hlim : withinLimits pat = true)
+    (hN : N.map (·.1) = lexNames pat) (hNok : NamedOK N) (hnd : (lexNames pat).Nodup) :
     ((∃ nd st1, consumeDisjunction (parseFuel pat)
-        { input := pat, flags := fl', groupCountMax := min (capOpens pat) Gen.MAX_CAPTURE_GROUPS } =
+        { input := pat, flags := fl', groupCountMax := min (capOpens pat) Gen.MAX_CAPTURE_GROUPS, named := N } =
           .ok (nd, st1) ∧ st1.input = []) ↔
       ∃ st, parsePattern c pat = .ok st) ∧
-    (∀ st, parsePattern c pat = .ok st → st.names = []) ∧ parsePattern c pat ≠ .fuel := by
+    (∀ st, parsePattern c pat = .ok st → st.names.reverse = lexNames pat) ∧ parsePattern c pat ≠ .fuel := by
   simp only [withinLimits, Bool.and_eq_true, decide_eq_true_eq] at hlim
   obtain ⟨⟨hl1, hl2⟩, hl3⟩ := hlim
   have hK : capOpens pat ≤ 65535 := Nat.le_trans (capOpens_le_opens pat) hl2
   have hmin : min (capOpens pat) Gen.MAX_CAPTURE_GROUPS = capOpens pat := by
     simp only [Gen.MAX_CAPTURE_GROUPS]; omega
   rw [hmin]
-  -- the run of the crate (pre-scan count `K`), and a hypothetical run that accepts every decimal escape
-  have hrun : ∀ G : Nat, Out G (disj c (8 * (pat.length + 2)) pat {})
+  -- the run of the crate (pre-scan count `K`, name table `N`), and hypothetical runs with a larger
+  -- count and a larger table
+  have hrun : ∀ (G : Nat) (N' : List (List Nat × List Nat)), NamedOK N' →
+      Out ⟨G, capOpens pat, N', lexNames pat⟩ (disj c (8 * (pat.length + 2)) pat {})
       (fun r est' => ∃ ts st', disjLoop (4 * pat.length + 7)
-          { input := pat, flags := fl', groupCountMax := G, depth := 0 + 1 } [] = .ok (ts, st') ∧
-        CR e k fl'.unicode G (capOpens pat)
-          { input := pat, flags := fl', groupCountMax := G, depth := 0 + 1 } r st' ∧
-        est'.groups = st'.groupCount)
+          { input := pat, flags := fl', groupCountMax := G, named := N', depth := 0 + 1 } [] = .ok (ts, st') ∧
+        CR F fl'.unicode ⟨G, capOpens pat, N', lexNames pat⟩
+          { input := pat, flags := fl', groupCountMax := G, named := N', depth := 0 + 1 } r st' ∧
+        Joint ⟨G, capOpens pat, N', lexNames pat⟩ est' st')
       (IsSyn (disjLoop (4 * pat.length + 7)
-          { input := pat, flags := fl', groupCountMax := G, depth := 0 + 1 } [])) := by
-    intro G
-    have hD := (sim_all (c := c) (e := e) (k := k) (u := fl'.unicode) G (capOpens pat) hu heu
-      (fun h => ⟨(hkk h).1, (hkk h).2.1, (hkk h).2.2.1⟩) (8 * (pat.length + 2))).1
-    exact hD pat {} (by omega) ⟨by simp, rfl, rfl⟩ (4 * pat.length + 7)
-      { input := pat, flags := fl', groupCountMax := G, depth := 0 + 1 } [] (by omega) rfl
+          { input := pat, flags := fl', groupCountMax := G, named := N', depth := 0 + 1 } [])) := by
+    intro G N' hN'
+    have hD := (sim_all (c := c) (F := F) (u := fl'.unicode) ⟨G, capOpens pat, N', lexNames pat⟩ hu heu
+      (fun h => ⟨(hkk h).1, (hkk h).2.1, (hkk h).2.2.1⟩) hnn hnd (8 * (pat.length + 2))).1
+    have he0 : EInv ⟨G, capOpens pat, N', lexNames pat⟩ ({} : ESG.St) := by
+      refine ⟨by simp, ?_, ?_⟩
+      · intro r hr; cases hr
+      · intro x hx; cases hx
+    exact hD pat {} (by omega) he0 (4 * pat.length + 7)
+      { input := pat, flags := fl', groupCountMax := G, named := N', depth := 0 + 1 } [] (by omega) rfl
       ⟨rfl, fun h => (hkk h).2.2.2, hfr, hch, by simp only; omega, by simp only; omega, by simp only; omega, rfl,
-        by simp⟩ rfl
-  have hD' := hrun (capOpens pat)
+        by simp, rfl, hN'⟩ ⟨rfl, by simp⟩
+  have hD' := hrun (capOpens pat) N hNok
   have hpf : parseFuel pat = (4 * pat.length + 7) + 1 := by unfold parseFuel; omega
-  have hdep : ({ input := pat, flags := fl', groupCountMax := capOpens pat } : PState).depth + 1 ≤
+  have hdep : ({ input := pat, flags := fl', groupCountMax := capOpens pat, named := N } : PState).depth + 1 ≤
       Gen.MAX_NESTING_DEPTH := by simp [Gen.MAX_NESTING_DEPTH]
   rw [hpf]
   unfold parsePattern
@@ -400,24 +696,59 @@ theorem frag_core (e k : Bool) (c : Cfg) (pat : List Nat) (fl' : Flags) (hu : c.
   | ok p =>
     obtain ⟨r, est'⟩ := p
     rw [hd] at hD'
+    -- in a complete parse the recognizer has counted all groups and seen all names (second run)
+    have hfull : r = [] → est'.groups = capOpens pat ∧ est'.names.reverse = lexNames pat := by
+      intro hr0
+      subst hr0
+      have hN2 : NamedOK (N ++ est'.refs.map (fun nm => (nm, [0]))) := by
+        intro e he
+        rcases List.mem_append.1 he with h | h
+        · exact hNok e h
+        · simp only [List.mem_map] at h
+          obtain ⟨nm, _, rfl⟩ := h
+          simp
+      have hD2 := hrun USIZE_MAX _ hN2
+      rw [hd] at hD2
+      rcases hD2 with ⟨_, ts, st', _, ⟨hr, _, hi'⟩, hg'⟩ | ⟨hp2, _⟩
+      · have hcap := hi'.cap
+        have hnm := hg'.names
+        rw [hr] at hcap hnm
+        rw [capOpens_nil, Nat.add_zero] at hcap
+        rw [lexNames_nil, List.append_nil] at hnm
+        exact ⟨by rw [hg'.groups, hcap], hnm⟩
+      · exfalso
+        rcases hp2 with h | ⟨x, hx, hnone⟩
+        · simp only at h; omega
+        · simp only at hnone
+          rw [mapGet_append] at hnone
+          have : (mapGet (est'.refs.map (fun nm => (nm, [0]))) x).isSome = true := by
+            rw [mapGet_isSome_iff]; simp only [List.map_map, List.mem_map]; exact ⟨x, hx, rfl⟩
+          cases hm1 : mapGet N x with
+          | some v => rw [hm1] at hnone; cases hnone
+          | none => rw [hm1] at hnone; simp only at hnone; rw [hnone] at this; cases this
     rcases hD' with ⟨he', ts, st', hl, ⟨hr, _, hi'⟩, hg'⟩ | ⟨hp, msg, hm⟩
     · rw [cd_ok hdep hl]
       rcases r with _ | ⟨y, r'⟩
-      · have hcap := hi'.cap
-        rw [hr] at hcap
-        rw [capOpens_nil, Nat.add_zero] at hcap
+      · obtain ⟨hgr, hnms⟩ := hfull rfl
         have hmd := he'.maxDec
         have hchk : ((!c.u || decide (est'.maxDec ≤ est'.groups)) &&
             (!c.n || est'.refs.all fun nm => est'.names.contains nm)) = true := by
-          rw [he'.refs]
-          have : est'.maxDec ≤ est'.groups := by
-            rw [hg', hcap]; unfold USIZE_MAX at hmd; omega
-          simp [this]
+          have h1 : est'.maxDec ≤ est'.groups := by
+            rw [hgr]; unfold USIZE_MAX at hmd; simp only at hmd ⊢; omega
+          have h2 : (est'.refs.all fun nm => est'.names.contains nm) = true := by
+            rw [List.all_eq_true]
+            intro x hx
+            have := he'.refs x hx
+            simp only at this
+            rw [mapGet_isSome_iff, hN, ← hnms] at this
+            rw [List.contains_eq_mem]
+            simpa using this
+          rw [h2]; simp [h1]
         simp only [hchk, if_true]
         refine ⟨⟨fun _ => ⟨est', rfl⟩, fun _ => ⟨_, _, rfl, hr⟩⟩, ?_, by simp⟩
         intro st hst
         cases hst
-        exact he'.names
+        exact hnms
       · simp only
         refine ⟨⟨?_, ?_⟩, ?_, by simp⟩
         · rintro ⟨nd, st1, he, h1⟩
@@ -426,31 +757,40 @@ theorem frag_core (e k : Bool) (c : Cfg) (pat : List Nat) (fl' : Flags) (hu : c.
           rw [hr] at h1; cases h1
         · rintro ⟨st, hst⟩; cases hst
         · intro st hst; cases hst
-    · -- a decimal escape beyond the group count: the crate has failed; so does the final check
+    · -- a decimal escape beyond the group count, or a reference to a name that is not in the table:
+      -- the crate has failed; so does the final check
       rw [cd_err hdep hm]
       rcases r with _ | ⟨y, r'⟩
-      · have hD2 := hrun USIZE_MAX
-        rw [hd] at hD2
-        have hgr : est'.groups = capOpens pat := by
-          rcases hD2 with ⟨_, ts, st', _, ⟨hr, _, hi'⟩, hg'⟩ | ⟨hp2, _⟩
-          · have hcap := hi'.cap
-            rw [hr] at hcap
-            rw [capOpens_nil, Nat.add_zero] at hcap
-            rw [hg', hcap]
-          · unfold Poisoned at hp2; omega
-        have hcu : c.u = true := by
-          cases hcu : c.u with
-          | true => rfl
-          | false =>
-            have := (mono0 c hcu (8 * (pat.length + 2))).1 pat {} [] est' hd
-            unfold Poisoned at hp
-            rw [this] at hp
-            simp at hp
+      · obtain ⟨hgr, hnms⟩ := hfull rfl
         have hchk : ((!c.u || decide (est'.maxDec ≤ est'.groups)) &&
             (!c.n || est'.refs.all fun nm => est'.names.contains nm)) = false := by
-          have : ¬ est'.maxDec ≤ est'.groups := by
-            unfold Poisoned at hp; rw [hgr]; omega
-          simp [hcu, this]
+          have hm0 := (mono0 c · (8 * (pat.length + 2)))
+          rcases hp with hp | ⟨x, hx, hnone⟩
+          · have hcu : c.u = true := by
+              rcases hmode with h | h
+              · exact h.1
+              · have := ((hm0 h.1).1 pat {} [] est' hd).1
+                rw [this] at hp
+                simp at hp
+            have : ¬ est'.maxDec ≤ est'.groups := by
+              simp only at hp; rw [hgr]; omega
+            simp [hcu, this]
+          · have hcn : c.n = true := by
+              rcases hmode with h | h
+              · exact h.2
+              · have := ((hm0 h.1).1 pat {} [] est' hd).2 h.2
+                rw [this] at hx
+                cases hx
+            have : (est'.refs.all fun nm => est'.names.contains nm) = false := by
+              rw [List.all_eq_false]
+              refine ⟨x, hx, ?_⟩
+              simp only at hnone
+              have hnk : x ∉ N.map (·.1) := by
+                rw [← mapGet_isSome_iff, hnone]; simp
+              rw [hN, ← hnms] at hnk
+              rw [List.contains_eq_mem]
+              simpa using hnk
+            rw [this]; simp [hcn]
         simp only [hchk, Bool.false_eq_true, if_false]
         refine ⟨⟨?_, ?_⟩, ?_, by simp⟩
         · rintro ⟨nd, st1, he, _⟩; cases he
